@@ -943,3 +943,16 @@ package cluster
 //@ ensures result == nil ==> *l == lock
 //@ canary result != nil
 //@ canary result == nil
+
+// Loading a lock file: unless verification is switched off, the returned lock has passed full hash and signature
+// verification; a returned lock is never nil.
+//@ func LoadClusterLock
+//@ props C12
+//@ ensures r1 == nil ==> r0 != nil
+//@ ghost okV int
+//@ ghostafter lock.VerifyHashes: okV = okV + ite(err == nil, 1, 0)
+//@ ghostafter lock.VerifySignatures: okV = okV + ite(err == nil, 1, 0)
+//@ callreq lock.VerifySignatures: a1 == eth1Cl
+//@ ensures r1 == nil && !noVerify ==> okV == old(okV) + 2
+//@ ensures r1 == nil ==> ncalls(lock.VerifyHashes) == 1 && ncalls(lock.VerifySignatures) == 1
+//@ ensures ncalls(json.Unmarshal) <= 1
